@@ -8,5 +8,6 @@ CONSTANTS
   MaxB = 3
   MaxF = 0
   Wide = FALSE
+  QVariants = 3
 INVARIANTS Conservation Complete
 CHECK_DEADLOCK FALSE
